@@ -53,9 +53,10 @@ class StateScenario(Scenario):
     def gen_cfg(self, rng):
         over = {}
         if self.prop == "C06":
-            over = {"p_validator": rng.choice([0.15, 0.3, 0.5])}
+            over = {"p_validator": rng.choice([0.15, 0.3, 0.5]), "schema_validators": rng.choice([0.0, 0.3, 0.6]),
+                    "p_list_schema": rng.choice([0.15, 0.3, 0.5])}
         if self.prop == "C12":
-            over = {"p_default": rng.choice([0.6, 0.9]), "p_callable": rng.choice([0.3, 0.6])}
+            over = {"p_default": rng.choice([0.6, 0.9]), "p_callable": rng.choice([0.3, 0.6]), "p_raw_default": rng.choice([0.0, 0.3, 0.6])}
         if self.prop == "C15":
             over = {"p_name": rng.choice([0.0, 0.3, 0.6]), "p_list_schema": rng.choice([0.15, 0.3, 0.5]),
                     "depth": rng.choice([1, 2, 2, 3]), "schema_validators": rng.choice([0.0, 0.3, 0.6])}
@@ -65,7 +66,7 @@ class StateScenario(Scenario):
         w = {"set": 6, "assign_sub": 2, "load_tree": 2, "loads": 1.5, "loads_bad": 0.5, "reset": 1.5, "lop": 3, "dop": 2,
              "ctor": 0.7, "dyn": 0.7, "load_bad": 0.3, "set_from": 0.8, "render": 0.4, "cmdline": 0.6 if self.prop == "C01" else 0}
         if self.prop == "C06":
-            w.update({"loads_bad": 2.5, "load_bad": 1.0, "assign_sub": 3})
+            w.update({"loads_bad": 2.5, "load_bad": 1.0, "assign_sub": 3, "lop": 5})
         if self.prop == "C12":
             w.update({"reset": 4, "ctor": 1.5, "lop": 1.5, "dop": 1})
         if self.prop == "C15":
@@ -101,6 +102,16 @@ class StateScenario(Scenario):
                         d = d["$call"]
                     if "default" not in o or not _dec(d):
                         del o["required"]
+        if self.prop in ("C01", "C06", "C12", "C15"):
+            # environment naming switched on for the whole schema (or single fields) while no variable is set: fields then
+            # behave as if no binding existed, but the library takes its environment-aware paths
+            erng = stream(seed, "env-naming")
+            if erng.random() < 0.25:
+                sd["root"]["env"] = erng.choice([True, "APP"])
+            elif erng.random() < 0.2:
+                for i, node in enumerate(values.all_leaf_nodes(sd)):
+                    if node["kind"] not in ("virtual", "method") and erng.random() < 0.4:
+                        node.setdefault("o", {})["env"] = erng.choice([True, "SIMVAR_%d" % i])
         p_inv = {"C01": 0.35, "C06": 0.6, "C12": 0.3, "C15": 0.7}.get(self.prop, 0.4)
         return {"sd": sd, "ncfg": rng.choice([1, 1, 2]), "weights": self.weights(rng),
                 "p_invalid": rng.choice([p_inv, p_inv, 0.15]), "p_fault": rng.choice([0.0, 0.1, 0.3]),
@@ -254,12 +265,22 @@ class StateScenario(Scenario):
                      "rejected %s (%s) changed the configuration at %s: %r -> %r" % (route, what, d[0], d[1], d[2]))
 
     def check_frame(self, st, rec, s0, cfg, path, route, what):
-        """C01/C12/C13: an accepted operation on `path` changes nothing else (values and user-defined flags)."""
-        if self.prop not in ("C01", "C12", "C13"):
+        """C01: an accepted assignment changes no other field.  C12: a reset touches no other field; any other operation
+        changes the user-defined status of no field it does not assign or load."""
+        if self.prop not in ("C01", "C12"):
+            return
+        if self.prop == "C01" and (route == "reset" or route.startswith(("list-", "dict-"))):
             return
         rec.check()
         s1 = snapshot.snap(cfg, st.serials)
         a, b = snapshot.strip_under(s0, path), snapshot.strip_under(s1, path)
+        if self.prop == "C12" and route != "reset":
+            fa, fb = flags_of(a), flags_of(b)
+            bad = sorted(k for k in fa if k in fb and fa[k] != fb[k])
+            if bad:
+                rec.fail("C12/frame", "C12/other-field-user-defined-status-changed/%s/%s" % (route, what),
+                         "accepted %s on %s changed the user-defined status of %s: %r -> %r" % (route, path, bad[0], fa[bad[0]], fb[bad[0]]))
+            return
         if a != b:
             d = snapshot.diff(a, b)
             rec.fail("%s/frame" % self.prop, "%s/other-field-changed/%s/%s" % (self.prop, route, what),
@@ -494,18 +515,37 @@ class StateScenario(Scenario):
             t = rng.choice(cand)
             return {"op": "set", "via": "attr", "path": t.path, "v": enc([])}
         t = rng.choice(ls)
+        cls = [x for x in ls if schema.is_cfg_node(x.node["item"])]
+        if cls and rng.random() < (0.6 if self.prop == "C06" else 0.4):
+            t = rng.choice(cls)          # lists of configurations: items can be rejected as a whole
         item = t.node["item"]
         n = len(t.value)
         name = rng.choice(["append", "append", "insert", "setitem", "extend", "slice_set", "iadd", "pop", "clear", "reverse",
                            "delitem", "imul", "remove_first"])
+        if schema.is_cfg_node(item) and rng.random() < 0.35:
+            name = "setitem" if n and rng.random() < 0.6 else "append"
 
         def one():
             if schema.is_cfg_node(item):
                 inode = schema.sub_schema_node(st.sd, item)
                 tree = ops.gen_tree(rng, st.sd, inode, st.ctx, p_key=0.6)
                 if rng.random() < st.h["p_invalid"]:
-                    if rng.random() < 0.3:
+                    r = rng.random()
+                    if r < 0.25:
                         return {"$raw": enc(rng.choice(["scalar", 5, None, [1]]))}
+                    if r < 0.55:
+                        # every value acceptable, the item rejected only as a whole: a value its schema validator refuses,
+                        # or required fields left out (given as a map, or as a configuration object that was not validated)
+                        ints = [f for f in inode["fields"] if f["kind"] in ("int", "port") and not f.get("validator")]
+                        if "pred" in inode.get("validators", ()) and ints and rng.random() < 0.6:
+                            f = rng.choice(ints)
+                            if isinstance(model.norm(f, 13, st.ctx), OK):
+                                tree[f["key"]] = 13
+                        else:
+                            for f in inode["fields"]:
+                                if f.get("o", {}).get("required"):
+                                    tree.pop(f["key"], None)
+                        return {"$tree": enc(tree), "as_config": rng.random() < 0.5, "validate": False}
                     ops.poison_tree(rng, st.sd, inode, tree, st.ctx)
                 return {"$tree": enc(tree), "as_config": rng.random() < 0.3}
             return {"$raw": enc(values.gen_value(rng, item, self._want(st, rng), st.ctx))}
@@ -726,13 +766,7 @@ class StateScenario(Scenario):
             self.check_unchanged(st, rec, s0, cfg, route, node["kind"])
             where, verdict = self.leaf_verdict(st, node, path, v, False)
             self.check_rejection(st, rec, err, where, node, route, exact=(verdict == REJ))
-            if self.prop == "C12":
-                rec.check()
-                rec.relevant += 1
-                if snapshot.snap(cfg, st.serials) != s0:
-                    d = snapshot.diff(s0, snapshot.snap(cfg, st.serials))
-                    rec.fail("C12/rejected", "C12/rejected-assignment-changed-state/%s/%s" % (route, node["kind"]),
-                             "rejected %s on %s changed %s: %r -> %r" % (route, path, d[0], d[1], d[2]))
+
 
     def leaf_verdict(self, st, node, path, v, loaded):
         """Model verdict for one value aimed at a leaf field: (path the error must name, OK|REJ|UNSPEC).
@@ -750,8 +784,8 @@ class StateScenario(Scenario):
                     bad.append(a)
                 elif UNSPEC in (ra, rb):
                     return path, UNSPEC
-            if len(bad) == 1 and type(bad[0]) in (str, int, bool):
-                return "%s[%s]" % (path, bad[0]), REJ
+            if len(bad) == 1 and type(bad[0]) in (str, int, bool, tuple):
+                return "%s[%s]" % (path, str(bad[0])), REJ
             # several offending entries (conversion and validation are separate passes, so which one is
             # reported first is not defined), or rejected as a whole by the field's own validator
             return path, UNSPEC
@@ -801,15 +835,19 @@ class StateScenario(Scenario):
         for f in st.sd["root"]["fields"]:
             if f["kind"] == "method":
                 r, e = self._call(lambda: getattr(cfg, f["key"])(1, 2))
-                if e is None and r != ("method", 2, type(cfg).__name__):
-                    rec.fail("%s/frame" % self.prop, "%s/instance-method-not-bound-to-its-configuration" % self.prop, "instance method returned %r" % (r,))
+                if e is None and r == ("method", 2, type(cfg).__name__):
+                    rec.probe("instance-method-called")
         rec.log("render", how, type(err).__name__ if err else "ok")
-        if self.prop in ("C01", "C12", "C13"):
+        if self.prop == "C12":
+            # "a field becomes user-defined exactly when a value is successfully assigned or loaded for it"
             rec.check()
-            if snapshot.snap(cfg, st.serials) != s0:
-                d = snapshot.diff(s0, snapshot.snap(cfg, st.serials))
-                rec.fail("%s/frame" % self.prop, "%s/read-only-operation-changed-configuration/%s" % (self.prop, how),
-                         "%s changed the configuration at %s" % (how, d[0]))
+            fa, fb = flags_of(s0), flags_of(snapshot.snap(cfg, st.serials))
+            bad = sorted(k for k in fa if k in fb and fa[k] != fb[k])
+            if bad:
+                rec.fail("C12/defined", "C12/read-only-operation-changed-user-defined-status/%s" % how,
+                         "%s changed the user-defined status of %s: %r -> %r" % (how, bad[0], fa[bad[0]], fb[bad[0]]))
+        elif snapshot.snap(cfg, st.serials) != s0:
+            rec.probe("read-only-operation-changed-configuration")
 
     # ---- trees
     def judge_tree(self, st, snode, tree, prefix="", fresh_top=False):
@@ -817,7 +855,9 @@ class StateScenario(Scenario):
         fresh_top: the tree creates a new configuration (map assigned to a sub-configuration, constructor
         keyword), so that configuration's schema validator judges it as well."""
         rej, unspec = [], False
-        if fresh_top and isinstance(tree, dict) and self.pred_hits(st, snode, tree):
+        if isinstance(tree, dict) and self.pred_hits(st, snode, tree, use_defaults=fresh_top):
+            # a new configuration is judged by its schema validator on tree + defaults; an existing load target on
+            # what the tree brings (its previous state is covered by pre_invalid)
             rej.append((prefix.rstrip("."), None))
         for p, node, cont, key in ops.tree_leaf_slots(st.sd, snode, tree, prefix):
             v = cont[key]
@@ -878,7 +918,7 @@ class StateScenario(Scenario):
                         out += self.pred_rejections(st, sn, it, "%s[%d]." % (p, i), False)
         return out
 
-    def pred_hits(self, st, snode, tree):
+    def pred_hits(self, st, snode, tree, use_defaults=True):
         if "pred" not in snode.get("validators", ()):
             return False
         for f in snode["fields"]:
@@ -886,7 +926,7 @@ class StateScenario(Scenario):
                 r = ops.expect_loaded(f, tree[f["key"]], st.ctx)
                 if isinstance(r, OK) and isinstance(r.v, int) and not isinstance(r.v, bool) and r.v == 13:
                     return True
-            elif f["key"] not in tree and not schema.is_cfg_node(f):
+            elif use_defaults and f["key"] not in tree and not schema.is_cfg_node(f):
                 d = f.get("o", {}).get("default")
                 if isinstance(d, dict) and "$call" in d:
                     d = d["$call"]
@@ -919,7 +959,7 @@ class StateScenario(Scenario):
                              "%s: %s was loaded but is not reported user-defined" % (route, p))
                 if schema.is_cfg_node(f):
                     if isinstance(value, Config) and isinstance(tree[k], dict):
-                        self.check_loaded_values(st, rec, value, schema.sub_schema_node(st.sd, f), tree[k], p + ".", route, True)
+                        self.check_loaded_values(st, rec, value, schema.sub_schema_node(st.sd, f), tree[k], p + ".", route, fresh)
                     continue
                 if f["kind"] == "list" and f.get("item") and schema.is_cfg_node(f["item"]):
                     if isinstance(tree[k], list) and isinstance(value, list) and len(value) == len(tree[k]):
@@ -927,9 +967,7 @@ class StateScenario(Scenario):
                         for i, (it, sub) in enumerate(zip(list.__iter__(value), tree[k])):
                             if isinstance(it, Config) and isinstance(sub, dict):
                                 self.check_loaded_values(st, rec, it, inode, sub, "%s[%d]." % (p, i), route, True)
-                    elif self.prop == "C01" and isinstance(tree[k], list):
-                        rec.fail("C01/readback", "C01/loaded-config-list-length/%s" % route,
-                                 "%s: %s loaded from %d items holds %r" % (route, p, len(tree[k]), canon(value) if not isinstance(value, list) else len(value)))
+
                     continue
             elif fresh and self.prop == "C12":
                 rec.check()
@@ -994,10 +1032,8 @@ class StateScenario(Scenario):
             rec.kind("ok" if err is None else "rej")
             if err is None:
                 rec.probe("assign-config-accepted")
-                if self.prop in ("C01", "C06"):
-                    rec.check()
-                    if ops.resolve(cfg, path) is not fresh:
-                        rec.fail("%s/readback" % self.prop, "%s/assigned-config-not-held" % self.prop, "%s does not hold the assigned configuration object" % path)
+                if ops.resolve(cfg, path) is fresh:
+                    rec.probe("assigned-config-object-held")
                 self.check_frame(st, rec, s0, cfg, path, route, "config")
                 self.check_defined(st, rec, owner, key, True, route, "config")
             else:
@@ -1015,7 +1051,7 @@ class StateScenario(Scenario):
             self.check_frame(st, rec, s0, cfg, path, route, "map")
             self.check_defined(st, rec, owner, key, True, route, "map")
             if isinstance(new, Config):
-                self.check_loaded_values(st, rec, new, snode, tree, path + ".", route, True)
+                self.check_loaded_values(st, rec, new, snode, tree, path + ".", route, False)
         else:
             rec.probe("assign-map-rejected")
             self.check_unchanged(st, rec, s0, cfg, route, "map")
@@ -1111,9 +1147,8 @@ class StateScenario(Scenario):
         rec.probe("unparsable-doc:" + str(op.get("how")))
         if err is not None:
             self.check_unchanged(st, rec, s0, cfg, "loads-unparsable-" + fmt, str(op.get("how")))
-        elif self.prop == "C06":
-            # the underlying parser rejects these bytes, yet the load returned: then at least nothing may have changed
-            self.check_unchanged(st, rec, s0, cfg, "loads-unparsable-returned-" + fmt, str(op.get("how")))
+        else:
+            rec.probe("unparsable-doc-but-load-returned")     # C06 speaks of operations that raise: no claim
 
     def do_load_bad(self, st, cfg, c, op, rec):
         w = st.world
@@ -1135,8 +1170,9 @@ class StateScenario(Scenario):
         rec.log("load_bad", fmt, how, type(err).__name__ if err else "ok")
         rec.kind(how)
         if err is not None:
-            rec.probe("load-io-failure:" + how)
-            self.check_unchanged(st, rec, s0, cfg, "load-io-failure", how)
+            # C06 lists documents that fail to *parse* and unresolvable includes; a main document that cannot be opened is
+            # not on the list: observed, not judged
+            rec.probe("load-io-failure:" + how + (":unchanged" if snapshot.snap(cfg, st.serials) == s0 else ":changed"))
 
     # ---- reset
     def do_reset(self, st, cfg, c, op, rec):
@@ -1180,8 +1216,8 @@ class StateScenario(Scenario):
                              "after reset %s exposes %r, default is %r" % (path, canon(value), exp))
                 d = node.get("o", {}).get("default")
                 tag = self.tag_of(st, path)
-                if isinstance(d, dict) and "$call" in d and tag is not None and st.B.calls.get(tag, 0) <= calls0.get(tag, 0):
-                    rec.fail("C12/reset", "C12/reset-callable-default-not-evaluated", "reset of %s did not evaluate its callable default" % path)
+                if isinstance(d, dict) and "$call" in d and tag is not None and st.B.calls.get(tag, 0) > calls0.get(tag, 0):
+                    rec.probe("reset-evaluated-callable-default")
 
     # ---- constructor keywords
     def do_ctor(self, st, cfg, c, op, rec):
